@@ -27,19 +27,21 @@ type weights struct {
 	govEvery                                 int // a governance parameter change about every n blocks (0 = never)
 	govModule                                int // -1 any module, 0 enterprise, 1 wrkchain, 2 beacon, 3 stream
 	checkPerBlock                            int // CheckTx operations after each commit (max)
+	reimportEvery                            int // export + fresh InitChain about every n blocks (0 = never)
 	tinyLimits                               bool
 }
 
 var focusWeights = map[string]weights{
-	"mixed":  {8, 10, 3, 6, 14, 5, 6, 8, 4, 3, 3, 5, 3, 4, 2, 2, 5, -1, 1, true},
-	"ent":    {14, 22, 6, 3, 6, 1, 1, 1, 0, 0, 0, 3, 1, 2, 1, 1, 4, -1, 0, true},
-	"entgov": {12, 30, 3, 0, 0, 0, 0, 0, 0, 0, 0, 1, 0, 0, 0, 0, 2, 0, 0, true},
-	"efund":  {16, 26, 4, 8, 22, 6, 0, 0, 0, 0, 0, 1, 0, 1, 2, 0, 0, -1, 2, true},
-	"reg":    {2, 3, 1, 10, 30, 12, 0, 0, 0, 0, 0, 2, 3, 5, 1, 1, 5, -1, 0, true},
-	"reggov": {0, 0, 0, 8, 30, 16, 0, 0, 0, 0, 0, 1, 2, 4, 0, 0, 2, 12, 0, true},
-	"stream": {1, 1, 0, 1, 1, 0, 12, 18, 8, 6, 5, 4, 2, 3, 1, 1, 5, -1, 0, true},
-	"strgov": {0, 0, 0, 0, 0, 0, 12, 22, 8, 6, 5, 2, 0, 0, 0, 0, 2, 3, 0, true},
-	"fees":   {5, 6, 2, 8, 14, 8, 1, 1, 0, 0, 0, 2, 3, 4, 3, 0, 6, -1, 6, true},
+	"mixed":  {8, 10, 3, 6, 14, 5, 6, 8, 4, 3, 3, 5, 3, 4, 2, 2, 5, -1, 1, 0, true},
+	"ent":    {14, 22, 6, 3, 6, 1, 1, 1, 0, 0, 0, 3, 1, 2, 1, 1, 4, -1, 0, 0, true},
+	"entgov": {12, 30, 3, 0, 0, 0, 0, 0, 0, 0, 0, 1, 0, 0, 0, 0, 2, 0, 0, 0, true},
+	"genesis": {8, 12, 3, 7, 16, 5, 7, 8, 4, 3, 3, 2, 1, 2, 1, 1, 6, -1, 0, 3, true},
+	"efund":  {16, 26, 4, 8, 22, 6, 0, 0, 0, 0, 0, 1, 0, 1, 2, 0, 0, -1, 2, 0, true},
+	"reg":    {2, 3, 1, 10, 30, 12, 0, 0, 0, 0, 0, 2, 3, 5, 1, 1, 5, -1, 0, 0, true},
+	"reggov": {0, 0, 0, 8, 30, 16, 0, 0, 0, 0, 0, 1, 2, 4, 0, 0, 2, 12, 0, 0, true},
+	"stream": {1, 1, 0, 1, 1, 0, 12, 18, 8, 6, 5, 4, 2, 3, 1, 1, 5, -1, 0, 0, true},
+	"strgov": {0, 0, 0, 0, 0, 0, 12, 22, 8, 6, 5, 2, 0, 0, 0, 0, 2, 3, 0, 0, true},
+	"fees":   {5, 6, 2, 8, 14, 8, 1, 1, 0, 0, 0, 2, 3, 4, 3, 0, 6, -1, 6, 0, true},
 }
 
 type history struct {
@@ -60,6 +62,9 @@ type history struct {
 	mon     *monitors
 	halted  bool
 	lastObs []string
+	reimportNext bool // the chain was exported and re-imported just before the next operation
+	shadow       *chain // the application the state was exported from, run in lockstep after a re-import
+	shadowLeft   int
 }
 
 type pendingProposal struct {
@@ -106,7 +111,8 @@ func (h *history) item(op string, res int, hasRes bool, ctx sdk.Context) []strin
 	if hasRes {
 		rs = fmt.Sprintf("(Some %d)", res)
 	}
-	h.items = append(h.items, fmt.Sprintf("{| ti_op := %s; ti_res := %s; ti_obs := [%s] |}", op, rs, strings.Join(obs, "; ")))
+	h.items = append(h.items, fmt.Sprintf("{| ti_op := %s; ti_res := %s; ti_obs := [%s]; ti_reimport := %s |}", op, rs, strings.Join(obs, "; "), coqBool(h.reimportNext)))
+	h.reimportNext = false
 	h.nOps++
 	return obs
 }
@@ -660,6 +666,46 @@ func (h *history) regBundle() []mmsg {
 	var out []mmsg
 	k := 2 + r.intn(3)
 	last := g.last
+	if r.chance(1, 5) {
+		// a fresh registration followed by records / purchases on the id it is about to receive, possibly ending in a
+		// message that fails (the whole transaction is then rolled back and the id stays free for the next registrant)
+		var next uint64
+		if wrk {
+			next, _ = c.app.WrkchainKeeper.GetHighestWrkChainID(c.ctx())
+		} else {
+			next, _ = c.app.BeaconKeeper.GetHighestBeaconID(c.ctx())
+		}
+		o := h.anyAcct()
+		out = append(out, c.mRegRegister(wrk, o, "m"+h.randText(20), "n"+h.randText(20), h.randText(60), "t"))
+		key := uint64(5)
+		if !wrk {
+			key = uint64(c.now.Unix())
+		}
+		out = append(out, c.mRegRecord(wrk, o, next, key, []string{"h" + h.randText(30), "", "", "", ""}))
+		if r.chance(2, 3) {
+			out = append(out, c.mRegRecord(wrk, o, next, key, []string{"h" + h.randText(30), "", "", "", ""})) // same height again: fails for wrkchain
+			if !wrk {
+				out = append(out, c.mRegPurchase(wrk, o, next, 1<<40)) // exceeds max: fails
+			}
+		}
+		return out
+	}
+	if r.chance(1, 4) && len(regs) >= 2 {
+		// purchases for several different registrations of one owner (one of them possibly beyond its capacity)
+		for _, g2 := range regs {
+			if g2.owner == g.owner && len(out) < 4 {
+				n := uint64(1 + r.intn(2))
+				if r.chance(1, 3) {
+					n = g2.max + 1
+				}
+				out = append(out, c.mRegPurchase(wrk, g.owner, g2.id, n))
+			}
+		}
+		if len(out) >= 2 {
+			return out
+		}
+		out = nil
+	}
 	for i := 0; i < k; i++ {
 		switch r.intn(4) {
 		case 0:
@@ -835,12 +881,27 @@ func (h *history) doDeliver() {
 	h.mon.beforeTx(g)
 	res, _ := h.c.deliver(g.spec)
 	cls := resClass(res)
+	if h.shadow != nil {
+		res2, _ := h.shadow.deliver(g.spec)
+		if resClass(res2) != cls {
+			h.mon.fail("C15", 0, fmt.Sprintf("after export + import the same transaction has a different effect: code %d/%s on the imported chain, %d/%s on the original (%s)", res.Code, res.Codespace, res2.Code, res2.Codespace, g.coq))
+		}
+	}
 	h.watchAfter(g, before)
 	h.nTx++
 	for _, m := range g.msgs {
 		h.kinds[m.kind]++
 	}
 	h.results[fmt.Sprintf("deliver:%d", cls)]++
+	if os.Getenv("VH_DEBUG2") != "" {
+		ks := ""
+		for _, m := range g.msgs {
+			ks += m.coq + " ; "
+		}
+		if strings.Contains(ks, "MWrk") {
+			fmt.Fprintf(os.Stderr, "TX cls=%d %s\n", cls, ks)
+		}
+	}
 	if cls == 0 {
 		h.nOk++
 	} else if debugLogs {
@@ -921,11 +982,21 @@ func (h *history) submitProposal() {
 		msgs = append(msgs, m)
 		sdkMsgs = append(sdkMsgs, m.m)
 	}
+	if h.r.chance(1, 4) {
+		// a proposal whose last message fails on execution: gov sends more than it owns; everything before it must be discarded
+		fail := c.mSend(mGov, h.anyAcct(), sdk.NewCoins(sdk.NewCoin("nund", bigPow2(100))))
+		msgs = append(msgs, fail)
+		sdkMsgs = append(sdkMsgs, fail.m)
+		h.flags["gov_proposals_with_failing_tail"]++
+	}
 	prop, err := govv1.NewMsgSubmitProposal(sdkMsgs, sdk.NewCoins(sdk.NewInt64Coin("stake", 10)), c.govActor.addr.String(), "", "t", "s")
 	if err != nil {
 		return
 	}
 	res, _ := c.deliver(txSpec{msgs: []sdk.Msg{prop}, fee: sdk.Coins{}, signers: []acct{c.govActor}})
+	if h.shadow != nil {
+		h.shadow.deliver(txSpec{msgs: []sdk.Msg{prop}, fee: sdk.Coins{}, signers: []acct{c.govActor}})
+	}
 	h.results[fmt.Sprintf("gov.submit:%d", resClass(res))]++
 	if res.Code != 0 {
 		return
@@ -940,6 +1011,9 @@ func (h *history) submitProposal() {
 	}
 	vote := govv1.NewMsgVote(c.govActor.addr, id, govv1.OptionYes, "")
 	res2, _ := c.deliver(txSpec{msgs: []sdk.Msg{vote}, fee: sdk.Coins{}, signers: []acct{c.govActor}})
+	if h.shadow != nil {
+		h.shadow.deliver(txSpec{msgs: []sdk.Msg{vote}, fee: sdk.Coins{}, signers: []acct{c.govActor}})
+	}
 	h.results[fmt.Sprintf("gov.vote:%d", resClass(res2))]++
 	h.pending = append(h.pending, pendingProposal{id, msgs})
 }
@@ -978,6 +1052,9 @@ func (h *history) block() bool {
 	if r.chance(1, 40) {
 		dt = time.Duration(1+r.intn(300)) * 24 * time.Hour
 	}
+	if h.w.reimportEvery > 0 && h.nOps > 8 && r.chance(1, h.w.reimportEvery) {
+		h.doReimport()
+	}
 	h.aimPair = nil
 	if h.w.strClaim > 4 && r.chance(1, 3) {
 		// place this block just before / in the same second as / at / just after the advertised zero time of a live stream
@@ -992,6 +1069,16 @@ func (h *history) block() bool {
 					h.aimPair = &pp
 					h.flags["blocks_aimed_at_zero_time"]++
 				}
+			}
+		}
+	}
+	if h.shadow != nil {
+		if h.shadowLeft <= 0 {
+			h.shadow = nil
+		} else {
+			h.shadowLeft--
+			if p := h.shadow.begin(dt); p != nil {
+				h.shadow = nil
 			}
 		}
 	}
@@ -1028,7 +1115,30 @@ func (h *history) block() bool {
 	}
 	h.item("OpEnd ["+strings.Join(ps, "; ")+"]", 0, false, c.ctx())
 	h.mon.afterEnd()
+	if h.shadow != nil {
+		if p := h.shadow.end(nil); p != nil {
+			h.shadow = nil
+		} else {
+			h.shadow.commit()
+			e1, err1 := c.app.ExportAppStateAndValidators(false, nil, nil)
+			_ = e1
+			_ = err1
+		}
+	}
 	c.commit()
+	if h.shadow != nil {
+		ea, erra := h.shadow.app.ExportAppStateAndValidators(false, nil, nil)
+		eb, errb := c.app.ExportAppStateAndValidators(false, nil, nil)
+		if erra == nil && errb == nil {
+			da, db := moduleDocs(ea.AppState), moduleDocs(eb.AppState)
+			for _, m := range ownModules {
+				if da[m] != db[m] {
+					h.mon.fail("C15", 0, fmt.Sprintf("one block after export + import the %s state of the two chains differs: %s", m, firstDiff(da[m], db[m])))
+				}
+			}
+			h.flags["shadow_blocks_compared"]++
+		}
+	}
 	h.item("OpCommit", 0, false, c.ctxFor(true))
 	h.mon.afterCommit()
 	for i := 0; i < h.w.checkPerBlock; i++ {
@@ -1037,6 +1147,55 @@ func (h *history) block() bool {
 		}
 	}
 	return true
+}
+
+// doReimport: export at the block boundary, start a fresh application from the document, keep going on it.
+// The old application stays alive for two blocks as a shadow: the same transactions must have the same effects.
+func (h *history) doReimport() {
+	before := h.obs.snapshot(h.c.committedCtx()) // flush pending deltas so that the next snapshot shows only import effects
+	_ = before
+	old, problems := h.c.reimport()
+	for _, p := range problems {
+		class := 0
+		if strings.Contains(p, "expected module account was") {
+			class = 1 // listed: coins were sent to the (deliberately unblocked) gov module account; x/gov's InitGenesis insists on balance == deposits
+		}
+		h.mon.fail("C15", class, p)
+	}
+	if old == nil {
+		h.flags["reimport_failed"]++
+		return
+	}
+	h.flags["reimports"]++
+	after := h.obs.snapshot(h.c.committedCtx())
+	for _, o := range after {
+		if !h.obs.fresh[o] {
+			h.mon.fail("C15", 0, "observable state changed by export + import: now "+o)
+		}
+	}
+	h.reimportNext = true
+	h.shadow = &chain{cfg: h.c.cfg, app: old, appOpts: h.c.appOpts, valSet: h.c.valSet, height: old.LastBlockHeight(), now: h.c.now,
+		accts: h.c.accts, govActor: h.c.govActor, addrIdx: h.c.addrIdx, started: h.c.started, db: nil}
+	h.shadowLeft = 2
+}
+
+func firstDiff(a, b string) string {
+	i := 0
+	for i < len(a) && i < len(b) && a[i] == b[i] {
+		i++
+	}
+	lo := i - 80
+	if lo < 0 {
+		lo = 0
+	}
+	ha, hb := i+80, i+80
+	if ha > len(a) {
+		ha = len(a)
+	}
+	if hb > len(b) {
+		hb = len(b)
+	}
+	return fmt.Sprintf("original ...%s... vs imported ...%s...", a[lo:ha], b[lo:hb])
 }
 
 func (h *history) run(nBlocks int) string {
